@@ -3166,3 +3166,34 @@ CATALOGUE['C20'] += [
       "        return try_call_attr(item, idattr)",
       "        return try_call_attr(item, idattr) or pyid(item)", 'C20.R9'),
 ]
+
+# ------------------------------------------------------ seed wave 11 rules
+CATALOGUE['C02'] += [
+    V('namespace() hands its keywords on as one object', 'DT_Util.py',
+      "    return self(**kw)\n\n\nTemplateDict.namespace = namespace",
+      "    return self(kw)\n\n\nTemplateDict.namespace = namespace",
+      'C02.R11'),
+]
+CATALOGUE['C12'] += [
+    V('the lazy wrapper iterates over its buffer', 'DT_Util.py',
+      "class SequenceFromIter:\n"
+      '    """Iterator wrapper supporting lazy sequence subscription."""\n',
+      "class SequenceFromIter:\n"
+      '    """Iterator wrapper supporting lazy sequence subscription."""\n\n'
+      "    def __iter__(self):\n        return iter(self.data)\n",
+      'C12.R2'),
+]
+CATALOGUE['C14'] += [
+    V('base class names matched by membership in a text', 'DT_Try.py',
+      "            if base.__name__ == name or self.match_base(base, name):",
+      "            if base.__name__ in name or self.match_base(base, name):",
+      'C14.R6-R7'),
+    V('exception names split at a blank', 'DT_Try.py',
+      "                    for errname in nargs.split():",
+      "                    for errname in nargs.split(' '):", 'C14.R11'),
+]
+CATALOGUE['C15'] += [
+    V('url_quote leaves % alone', 'DT_Var.py',
+      "    return urllib.parse.quote(str(v))",
+      "    return urllib.parse.quote(str(v), safe='/%')", 'C15.R5'),
+]
